@@ -24,7 +24,7 @@ def s_det(draw):
     x = draw(s_signal(n=n, cls="O", dts=("c", "c", "f", "i"), fams=["gauss", "unif", "const", "smallint"]))
     x["nscale"] = draw(st.sampled_from([1.0, 1.0, 1e-9, 1e-12]))      # a genuine noise component far below any "is it zero?" tolerance
     return {"x": x, "fs_ratio": draw(st.sampled_from([0.5, 2.0, 4.0])), "gv": draw(s_gv(sps_max=32, with_extra=True)), "G": draw(st.one_of(st.floats(0, 40), st.sampled_from([0.0, 20.0, 40.0]))),
-            "NF": draw(st.floats(3, 10)), "bw": draw(st.one_of(st.none(), st.floats(0.02, 0.45))), "seed": draw(st.integers(0, 2 ** 31 - 1))}
+            "NF": draw(st.floats(3, 10)), "bw": draw(st.one_of(st.none(), st.floats(0.02, 0.45), st.floats(0.02, 0.45), st.floats(0.45, 0.995), st.sampled_from([0.9, 0.97, 0.98, 0.985, 0.99, 0.995]))), "seed": draw(st.integers(0, 2 ** 31 - 1))}
 
 
 def strip(x):
@@ -147,7 +147,7 @@ def e_det(c):
     for bad in (electrical_signal(np.ones(8)), np.ones(8, dtype=complex), [1.0, 2.0]):
         raises(TypeError, D.EDFA, bad, G, NF, tag="edfa-non-optical-accepted")
     nt = m.n is not None or m.npol == 1 or c["bw"] is not None
-    return {"nontrivial": bool(nt), "classes": [f"pol{m.npol}", "noise" if m.n is not None else "clean", f"dt-{c['x']['sig']['dt']}", "bw" if c["bw"] else "no-bw",
+    return {"nontrivial": bool(nt), "classes": [f"pol{m.npol}", "noise" if m.n is not None else "clean", f"dt-{c['x']['sig']['dt']}", "bw>0.9fs" if (c["bw"] or 0) > 0.9 else "bw" if c["bw"] else "no-bw",
                                                  c["gv"]["form"], "wl" if c["gv"].get("wavelength") else "wl-default", exact]}
 
 
